@@ -117,6 +117,13 @@ class Rule_CV07(BaseRule):
                 fixes.extend([LintFix.delete(segment) for segment in lift_nodes])
                 filtered_children = filtered_children[len(leading) : -len(trailing)]
 
+            if not filtered_children:
+                # Nothing left inside the brackets (e.g. ``()``). A "replace"
+                # with no edit segments is invalid, and removing the brackets
+                # would leave an empty statement, so report without a fix.
+                results.append(LintResult(anchor=bracketed_segment))
+                continue
+
             fixes.append(
                 LintFix.replace(
                     bracketed_segment,
